@@ -315,7 +315,8 @@ def wrapper(kind, cfg, dim, maxiter, oblig, maxfun=None):
 
 # ------------------------------------------------------------------------------------- tight / clip range modes
 BOX_POOL = [([0.0], [1.0]), ([-2.5], [-2.5]), ([-1e20], [3.0]),
-            ([0.0, -1.0], [1.0, 4.0]), ([1.0, 2.0], [1.0, 1e20]), ([-3.0, 0.5], [-1.0, 0.5])]
+            ([0.0, -1.0], [1.0, 4.0]), ([1.0, 2.0], [1.0, 1e20]), ([-3.0, 0.5], [-1.0, 0.5]),
+            ([1 / 3.], [0.1 + 0.2 + 1]), ([-1e6 / 7], [1e6 / 7])]      # bounds that are not short decimals (the symbolic path prints 15 digits)
 
 
 def mode_step(kind, mode, lo, hi, cons, oblig, steps=2):
@@ -328,7 +329,7 @@ def mode_step(kind, mode, lo, hi, cons, oblig, steps=2):
         s = make_solver(kind, dim)
         s.SetEvaluationLimits(L.BIG, L.BIG)
         s.SetTermination(L.never())
-        kw = dict(tight=True) if mode == 'tight' else dict(clip=(mode == 'clip=True'))
+        kw = dict(tight=True) if mode == 'tight' else (dict(tight=False) if mode == 'tight=False' else dict(clip=(mode == 'clip=True')))
         stubs.ORACLE.override = FixedDraws()
         try:
             s.SetStrictRanges(list(lo), list(hi), **kw)
